@@ -463,10 +463,14 @@ class InMemoryStateStore(Generic[MODEL_T]):
         Returns:
             MODEL_T: A `.model_copy()` of the internal Pydantic model.
         """
-        state = self._state.model_copy()
+        return self._top_level_copy(self._state)
+
+    @staticmethod
+    def _top_level_copy(state: MODEL_T) -> MODEL_T:
+        state = state.model_copy()
         if isinstance(state, DictLikeModel):
-            # model_copy() shares private attributes: give the snapshot its own
-            # top-level dict so that editing it does not edit the store
+            # model_copy() shares private attributes: give the copy its own
+            # top-level dict so that editing it does not edit the original
             state._data = dict(state._data)
         return state
 
@@ -489,7 +493,13 @@ class InMemoryStateStore(Generic[MODEL_T]):
             ValueError: If the types are not compatible (neither same nor parent).
         """
         async with self._lock:
-            self._state = merge_state(self._state, state)
+            merged = merge_state(self._state, state)
+            if merged is state:
+                # A same-type replacement is the caller's own object: keep a copy, as
+                # get_state() hands one out, so that editing that object after it was
+                # written does not edit the store
+                merged = self._top_level_copy(merged)
+            self._state = merged
 
     def to_dict(self, serializer: "BaseSerializer") -> dict[str, Any]:
         """Serialize the state and model metadata for persistence.
